@@ -29,6 +29,12 @@ def content_bytes(spec):
     if kind == "g":
         s, n = rest.split(":")
         return gen_content(int(s), int(n))
+    if kind == "z":
+        # the first (seed % 4)/4 of the file as in "g", the rest zeros (zero-padded / preallocated data; seed % 4 == 0: all zeros)
+        s, n = rest.split(":")
+        s, n = int(s), int(n)
+        k = (s % 4) * n // 4
+        return gen_content(s, k) + bytes(n - k)
     return bytes.fromhex(rest) if rest else b""
 
 
@@ -295,11 +301,12 @@ ROOT_WARNING = re.compile(rb"WARNING: Running as root.*?\n\n", re.S)
 class Project:
     """A real dud project in scratch space."""
 
-    def __init__(self, dud, base, cache_mode="rel", cwd_sub=b"", remote=True, env_extra=None):
+    def __init__(self, dud, base, cache_mode="rel", cwd_sub=b"", remote=True, env_extra=None, odd=False):
         self.dud_bin = dud
         self.timeout = 120
         self.base = base                                   # private scratch dir of this case
-        self.root = os.path.join(base, "outer", "proj")    # surrounded by a sentinel tree
+        # `odd`: the absolute paths of project and cache contain ':' and blanks (a run directory named after a timestamp)
+        self.root = os.path.join(base, "run 2024-05-17T12:30" if odd else "outer", "proj")    # surrounded by a sentinel tree
         os.makedirs(self.root)
         self.xdg = os.path.join(base, "xdg")
         os.makedirs(self.xdg)
@@ -321,7 +328,7 @@ class Project:
             self.cache = os.path.join(self.root, ".dud", "cache")
             cache_cfg = None
         elif cache_mode == "abs":
-            self.cache = os.path.join(base, "abscache")
+            self.cache = os.path.join(base, "abs:cache dir" if odd else "abscache")
             os.makedirs(self.cache)
             cache_cfg = self.cache
         else:  # shm: different device
@@ -334,7 +341,7 @@ class Project:
             raise RuntimeError("dud init failed: %r" % se)
         with open(os.path.join(self.root, ".dud", "config.yaml"), "a") as f:
             if cache_cfg:
-                f.write("cache: %s\n" % cache_cfg)
+                f.write("cache: %s\n" % json.dumps(cache_cfg))
             if remote:
                 f.write("remote: %s\n" % self.remote_dir)
         self.cwd = os.path.join(os.fsencode(self.root), cwd_sub) if cwd_sub else os.fsencode(self.root)
@@ -345,6 +352,16 @@ class Project:
         self.cmds = {}
         self.harness_corrupted = set()
         self.harness_removed = set()
+        self.mounts = {}         # absolute workspace path (bytes) of a symlink standing for a mount point -> directory on another device
+
+    def add_mount(self, rel):
+        """a directory of the workspace that lives on another file system (a symlink to a directory on /dev/shm)"""
+        target = tempfile.mkdtemp(prefix="verif.mnt.", dir="/dev/shm")
+        full = self.abspath(rel)
+        os.makedirs(os.path.dirname(full), exist_ok=True)
+        os.symlink(os.fsencode(target), full)
+        self.mounts[full] = target
+        return target
 
     def move(self):
         """rename the project directory to a place at another depth"""
@@ -493,7 +510,10 @@ class Project:
                     continue
                 rel = os.path.relpath(full, rootb)
                 st = os.lstat(full)
-                if stat.S_ISLNK(st.st_mode):
+                if stat.S_ISLNK(st.st_mode) and full in self.mounts:
+                    lines.append("w %s d" % hx(rel))        # a mount point: part of the workspace
+                    walk(full)
+                elif stat.S_ISLNK(st.st_mode):
                     tgt = os.readlink(full)
                     res = os.path.normpath(os.path.join(os.path.dirname(full), tgt))
                     try:
@@ -892,7 +912,7 @@ def run_case(args):
     proj = None
     out = dict(id=case["id"], steps=[], diffs=[], error=None, case=case)
     try:
-        proj = Project(dud, base, cache_mode=case.get("cache", "rel"), cwd_sub=case.get("cwd", b""),
+        proj = Project(dud, base, odd=bool(case.get("oddpath")), cache_mode=case.get("cache", "rel"), cwd_sub=case.get("cwd", b""),
                        remote=True, env_extra=case.get("env"))
         proj.timeout = case.get("timeout", 120)
         for k, p, *rest in case["init"]:
